@@ -19,3 +19,10 @@ Definition go_common_TracerouteParallelParams_MaxTimeout (p_SendDelay : Z) (p_Mi
 Definition go_sack_Params_MaxTimeout (p_HandshakeTimeout : Z) (p_FinTimeout : Z) (p_ParallelParams_SendDelay : Z) (p_ParallelParams_MinTTL : Z) (p_ParallelParams_MaxTTL : Z) (p_ParallelParams_TracerouteTimeout : Z) :=
   p_HandshakeTimeout + p_FinTimeout + (go_common_TracerouteParallelParams_MaxTimeout p_ParallelParams_SendDelay p_ParallelParams_MinTTL p_ParallelParams_MaxTTL p_ParallelParams_TracerouteTimeout).
 
+(* traceroute.runTracerouteMulti *)
+Definition go_e2e_queries_delay (params_MaxTTL : Z) (params_Timeout : Z) (params_E2eQueries : Z) :=
+  let e2eQueriesDelay := ((params_MaxTTL * params_Timeout) / params_E2eQueries) in
+  if (1 * 1000000000 <? e2eQueriesDelay) then let e2eQueriesDelay := 1 * 1000000000 in
+  e2eQueriesDelay
+  else e2eQueriesDelay.
+
